@@ -44,6 +44,9 @@ pub struct PairCfg {
     /// extra payload bytes of a publish that uses an alias with an empty topic: with a long topic the
     /// packet on the wire is then smaller than the registering one, but its store copy (full topic) is not
     pub use_extra: u8,
+    /// manual responses (v5.0): the receiving application refuses every message (PUBACK / PUBREC with this failure
+    /// reason code): the exchange ends there, identifiers and Receive Maximum slots come back all the same
+    pub refuse_code: Option<u8>,
 }
 
 #[derive(Clone, Copy, Debug, PartialEq, Eq, Hash)]
@@ -76,6 +79,9 @@ struct Msg {
     notified: u8,
     /// a transport was lost while this message was in flight or later
     lossy: bool,
+    /// the receiving application answered with a failure code (the sender may then present the message again
+    /// after a loss: "exactly once" is only demanded without one)
+    refused: bool,
 }
 
 #[derive(Clone, Copy, Debug, PartialEq, Eq, Hash)]
@@ -264,9 +270,16 @@ impl<P: Pid> Pair<P> {
                                 }
                             }
                             if !auto {
+                                let code = if ver == Ver::V5 { self.cfg.refuse_code } else { None };
+                                if code.is_some() && *qos > 0 {
+                                    if let Some(m) = self.msgs.get_mut(tag) {
+                                        m.refused = true;
+                                    }
+                                    out.label("c01.refused-by-receiver");
+                                }
                                 match qos {
-                                    1 => replies.push(AP::Ack { ver, kind: AckKind::Puback, pid: pid.unwrap(), code: None, props: None }),
-                                    2 => replies.push(AP::Ack { ver, kind: AckKind::Pubrec, pid: pid.unwrap(), code: None, props: None }),
+                                    1 => replies.push(AP::Ack { ver, kind: AckKind::Puback, pid: pid.unwrap(), code, props: None }),
+                                    2 => replies.push(AP::Ack { ver, kind: AckKind::Pubrec, pid: pid.unwrap(), code, props: None }),
                                     _ => {}
                                 }
                             }
@@ -418,7 +431,7 @@ impl<P: Pid> Pair<P> {
                         v.push((*a, *t));
                     }
                 }
-                self.msgs.push(Msg { from_client: client, q: *q, t: *t, accepted, notified: 0, lossy: false });
+                self.msgs.push(Msg { from_client: client, q: *q, t: *t, accepted, notified: 0, lossy: false, refused: false });
                 self.handle(client, evs, true, out);
             }
             Op::Sub | Op::Unsub => {
@@ -447,6 +460,7 @@ impl<P: Pid> Pair<P> {
                 continue;
             }
             let bad = match m.q {
+                2 if m.refused && m.lossy => m.notified == 0,
                 2 => m.notified != 1,
                 1 => m.notified == 0 || (!m.lossy && m.notified != 1),
                 _ => m.notified > 1,
@@ -676,6 +690,7 @@ pub fn configs(thorough: bool) -> Vec<PairCfg> {
         defer_pubrel: false,
         topic_off: 0,
         use_extra: 0,
+        refuse_code: None,
     };
     for ver in [Ver::V4, Ver::V5] {
         v.push(base(ver, "auto/auto"));
@@ -703,6 +718,9 @@ pub fn configs(thorough: bool) -> Vec<PairCfg> {
     }
     // Maximum Packet Size = exactly the largest workload packet (PUBLISH QoS>0, topic 'bb', 2-byte payload: 1+1+4+2+1+2)
     v.push(PairCfg { mps: Some(11), ..base(Ver::V5, "mps=11 (largest workload packet)") });
+    // a receiving application that refuses every message (failure PUBACK / PUBREC), Receive Maximum 1 both ways:
+    // the refused exchange is over - after a loss and resume, too, nothing of it may still count
+    v.push(PairCfg { auto_c: false, auto_s: false, rm_c: Some(1), rm_s: Some(1), refuse_code: Some(0x87), losses: 1, ..base(Ver::V5, "manual/manual, receiver refuses (0x87), rm=1/1") });
     // manual aliases on a long topic with a size limit that admits the registering PUBLISH (20 bytes) and the
     // alias-only PUBLISH with its longer payload (15 bytes), but not the latter's store copy with the full
     // topic (22 bytes): what the library accepts it must also be able to retransmit after a loss
